@@ -1,13 +1,26 @@
 """Family groups and shared pieces of the per-property checks."""
 COG = ["Cog%d" % n for n in [1, 2, 3, 4, 5, 6, 7, 8, 9, 10, 11, 12, 13, 14, 16, 17, 18, 19, 20, 21]]
-CLOSED_HYDRO = {f: "hydro" for f in ["Noh", "Noh2", "Noh2Cog"] + COG}
+CLOSED = ["Noh", "Noh2", "Noh2Cog"] + COG
+# coverage obligation: two shocks need ul > ur, two fans need ul < ur; the mixed patterns occur with
+# every sign of the velocity difference (shock-contact-rarefaction with ul != ur is the branch the
+# repository's tests never execute)
+PATTERNS = [("SCS", "ul>ur"), ("RCR", "ul<ur")] + [(p, u) for p in ("SCR", "RCS") for u in ("ul<ur", "ul=ur", "ul>ur")]
+
+
+def fams(groups, closed=True, riemann=True, only=None):
+    d = {}
+    if closed:
+        for f in (only or CLOSED):
+            d[f] = ("hydro", groups)
+    if riemann:
+        d["RiemannIG"] = ("riemann", groups)
+    return d
 
 
 def generic_replay(prop, path):
-    """Re-run the failing configuration on the current tree and print the clause verdicts."""
+    """Print the stored failing case (configuration, event, clause)."""
     import json
-    from .. import scans, core
     with open(path) as f:
         rp = json.load(f)
-    print(json.dumps(rp, indent=1)[:4000])
+    print(json.dumps(rp, indent=1)[:6000])
     return 0
